@@ -59,6 +59,10 @@ What the misses taught, and what was strengthened because of them:
   check.  The C04 candidate (replayed Update writes the refetched item back) made two existing `common` tests fail
   (`Test_RefetchAndMerge_Update*_InNodeSegment_Succeeds`), so it is not a qualifying change and was not kept; C04's
   quick check did report it (`union-differs:own-write-not-visible:Update`).
+* C04-mutant1 (the replay loop of refetch-and-merge stops after the first replayed Remove; `common` tests still pass) was
+  missed by C04 because the disjoint workload never removed anything: writers now also remove their own seeded keys
+  (same residue class as the keys they update, several removes per transaction); detected since (the union oracle
+  reports the writer's other changes missing).  Unchanged tree re-run: exit 0.
 * Still missed: C08-mutant1 and C10-mutant2 live entirely in the expired-log / priority-rollback recovery code, which
   no public path reaches (finding C09-K1): nothing the harness can drive executes the changed lines.
 * Detected only by a *neighbouring* property's check (the listed property's own check does not see them because the
